@@ -754,6 +754,13 @@ where
                 .write()
                 .with(|mut shard| shard.get_mutable(hash, key)),
         }
+        // Wrap the record into an entry so that the reference taken by the lookup is released on drop.
+        .map(|record| RawCacheEntry {
+            pipe: self.pipe.clone(),
+            inner: self.inner.clone(),
+            record,
+            source: Source::Memory,
+        })
         .is_some()
     }
 
